@@ -32,7 +32,9 @@ def gen_union(seed, k):
         traits.append("Eq")
     traits += ["Clone", "Copy"] if rng.random() < 0.7 else []
     rng.shuffle(traits)
-    td = U.random_union(rng, traits=traits, generic=rng.random() < 0.25, max_fields=3)
+    # the union's own name may coincide with a name the impls introduce (the hasher parameter `H`, ...)
+    name = rng.choice(["Un", "Un", "Un", "H", "HH", "Hasher", "T", "S", "Formatter", "D"])
+    td = U.random_union(rng, traits=traits, generic=rng.random() < 0.25, max_fields=3, name=name)
     size, align = U.size_align(td)
     fs = td.variants[0].fields
     raw = S.Field("raw", U.ukind("[u8; %d]" % size, size, 1), len(fs))
